@@ -677,7 +677,11 @@ func runHistory(t *tr.Trace, r *tr.Rand, n int) {
 					if r.Bool() {
 						off = offset{-(1 << 62), -(1 << 62) - int64(r.Intn(1000))}
 					} else {
-						off = offset{1 << 62, 1<<62 + int64(r.Intn(1000))}
+						// at least 120 s beyond 2^63 ns: time.Since(T0+off) read at T0+e is
+						// -(2^63+x)+e, which saturates at minDuration for every e < x.
+						// (With x < 1 us it stopped saturating after x ns and crossed the
+						// boundary of the wrapped age -2^63+0.145 s once e > 0.145 s.)
+						off = offset{1 << 62, 1<<62 + int64(r.Range(120, 100000))*sec + int64(r.Intn(1000))}
 					}
 					t.Note("time-beyond-duration-range")
 				}
